@@ -15,9 +15,9 @@ package pledge
 
 import (
 	"context"
-	"os"
 	"fmt"
 	"math/rand"
+	"os"
 	"sort"
 	"strconv"
 	"strings"
